@@ -6,6 +6,7 @@ import F3.Model.NetTimed
 import F3.Proofs.AlarmInvRun
 import F3.Model.NetRanked
 import F3.Proofs.RoundDecides
+import F3.Proofs.RoundNetMain
 /-!
 # C06 — termination (partial by nature)
 
@@ -984,4 +985,257 @@ example : F3.Gen.Gpbft2.rebroadcast 3 2 = [1, 14, 13, 12, 24, 23, 22] ∧ F3.Gen
     F3.Gen.Gpbft2.rebroadcast 5 7 = [5] ∧ F3.Gen.Gpbft2.rebroadcast 6 7 = [] := by decide
 
 end Regenerated2
+end F3.Props.C06
+
+/-! # Round `r ≥ 1` at network level (appended): `round_r_decides` -/
+namespace F3.Props.C06
+section RoundR
+open F3.Instance F3.Net F3.NetRanked F3.Liveness
+
+/-! ## the conditional round theorem (audit finding H1 (c)), network level
+
+`F3/Proofs/RoundNet{Defs,Tally,Node,Net,Main}.lean` (namespace `F3.Liveness`). Setting: the ranked network
+`F3/Model/NetRanked.lean`; `H` is the list of live members — distinct members of the power table that together hold a
+strong quorum (the all-honest whole-table network is `H = tbl.entries.map (·.1)`; members outside `H` are silent:
+crashed, as member 4 of the S13 runs); total power positive.
+
+* `RoundStart rankOf t H r b val jst n` (`roundStartB`, decidable): `r ≥ 1`; every member `p ∈ H` is in CONVERGE of round
+  `r`, its converge state holds exactly its own value `val p` (justification `jst p`), its PREPARE / COMMIT tallies of
+  round `r`, its DECIDE tally and round `r+1` are empty, it has not terminated; the pool holds the CONVERGE of round `r`
+  of every member (value `val p`, ticket `rankOf p r`, justification `jst p`) and no other message of round `r` and no
+  DECIDE; no such message has been handed to a member yet. This is the state in which `ranked_round1_converges` and the
+  S13 runs find themselves after a round that ended in COMMIT ⊥ for everybody.
+* `SyncOrderedR rankOf r H n ops` (`syncOkR`, decidable): only members of `H` act and there is no `Start`; only CONVERGE /
+  PREPARE / COMMIT of round `r` and DECIDE are handed over — **re-deliveries of messages of older rounds are excluded**
+  (not proved harmless: a re-delivered COMMIT of round `r-1` can complete a late strong quorum, which is a legitimate
+  DECIDE from round `r`, and a late QUALITY vote changes the candidates, i.e. admissibility); a member that evaluates
+  its CONVERGE timeout of round `r` as expired — in `ReceiveAlarm` or in the `tryCurrentPhase` at the end of `Receive`,
+  the message being delivered counting as handed over — has been handed the CONVERGE of every member of `H`.
+  **No condition on the PREPARE and COMMIT timeouts is needed**: everybody votes `val w`, so "timeout expired and a strong
+  quorum of senders heard" already is a strong quorum for `val w` (total power positive); a PREPARE or COMMIT alarm that
+  fires early only rebroadcasts. (The S13 script fires the COMMIT alarms before any COMMIT is handed over — a per-phase
+  condition in the style of `Net.SyncOrdered` would reject that run.)
+* premise: the strictly best ticket of round `r` belongs to `w` (`bestTicket`) and `val w` passes the filter of
+  `tryConverge` at every member under the justification of every member that sends it (`admAllB`: `admAt x (val w) (jst q)`
+  for every member state `x` and every `q` with `val q = val w`; which entry of the converge state carries `val w`
+  depends on the order of delivery — the first CONVERGE for a value, or the member's own — hence "every `q`").
+* conclusion (`round_r_invariant`, every admissible synchronous execution): no failure effect is added, every PREPARE /
+  COMMIT of round `r` and every DECIDE on the wire is for `val w`, every member stays in round `r`, and a decision is
+  `val w`; (`round_r_decides`) if the execution is complete for round `r` and nobody is left waiting for its CONVERGE
+  timer (the proviso of `general_sync_decides`, CONVERGE ends by timer only), every member has terminated in round `r` with
+  decision `val w` and has broadcast DECIDE `val w`. "Every member PREPAREs and COMMITs `val w`" is *not* a consequence: a
+  member still in CONVERGE is pulled into DECIDE by one DECIDE (or by a COMMIT quorum) and never PREPAREs
+  (`round_r_member_skips_prepare`); what holds is `RoundFacts.node`: a member in PREPARE / COMMIT has broadcast PREPARE
+  `val w`, a member in COMMIT has broadcast COMMIT `val w`. -/
+
+/-- **Round `r`, COMMIT stage (node level).** A participant whose COMMIT tally of its current round satisfies the
+run-level tally invariant (`TallyWF`, part of `GInv`) and has heard a whole strong quorum `H`, every heard vote being for
+`v ≠ ⊥`, moves to DECIDE with value `v` and broadcasts DECIDE `v` justified by the COMMITs of that round; nothing
+fails (total power positive). -/
+theorem round_commit_stage (s : State) (now : Int) (V : Pid → Chain → Prop) (v : Chain) (H : List Pid) (hv : v ≠ [])
+    (hpos : 0 < s.tbl.total) (hwf : TallyWF V s.tbl (s.getRound s.round).committed)
+    (hne : H ≠ []) (hnd : H.Nodup) (hq : strongQ s.tbl (sumP s.tbl H) = true)
+    (hall : ∀ x ∈ H, x ∈ (s.getRound s.round).committed.senders)
+    (huni : ∀ x c, x ∈ (s.getRound s.round).committed.senders → V x c → c = v) :
+    hasFailure (s.tryCommit now s.round).2 = false ∧
+    (s.tryCommit now s.round).1.phase = .decide ∧ (s.tryCommit now s.round).1.value = v ∧
+    (s.tryCommit now s.round).1.round = s.round ∧
+    ∃ sg, Eff.broadcast 0 .decide v false (some { round := s.round, phase := .commit, value := v, signers := sg }) ∈
+      (s.tryCommit now s.round).2 :=
+  commit_stage_node s now V v H hv hpos hwf hne hnd hq hall huni
+
+/-- **Round `r`, DECIDE stage (node level).** A DECIDE tally that has heard a whole strong quorum `H`, all for `v`:
+the participant terminates with decision `v`; nothing fails. -/
+theorem round_decide_stage (s : State) (now : Int) (V : Pid → Chain → Prop) (v : Chain) (H : List Pid)
+    (hpos : 0 < s.tbl.total) (hwf : TallyWF V s.tbl s.decision)
+    (hne : H ≠ []) (hnd : H.Nodup) (hq : strongQ s.tbl (sumP s.tbl H) = true)
+    (hall : ∀ x ∈ H, x ∈ s.decision.senders)
+    (huni : ∀ x c, x ∈ s.decision.senders → V x c → c = v) :
+    hasFailure (s.tryDecide now).2 = false ∧ (s.tryDecide now).1.phase = .terminated ∧
+    ∃ d, (s.tryDecide now).1.termination = some d ∧ d.value = v ∧ d.phase = .decide :=
+  decide_stage_node s now V v H hpos hwf hne hnd hq hall huni
+
+/-- **Round `r`, safety.** See the section header; `RoundFacts` is spelled out in `F3/Proofs/RoundNetMain.lean`. -/
+theorem round_r_invariant (rankOf : Pid → Nat → Nat) (t : Table) (H : List Pid) (r b : Nat) (val : Pid → Chain)
+    (jst : Pid → Just) (w : Pid) (n : Net) (ops : List NetOp)
+    (hstart : RoundStart rankOf t H r b val jst n) (hbest : bestTicket rankOf H r w = true)
+    (hadm : admAllB H w val jst n = true)
+    (hexec : execOkR rankOf n ops = true) (hsync : SyncOrderedR rankOf r H n ops) :
+    RoundFacts H r (val w) n.fails (runNetR rankOf n ops) :=
+  F3.Liveness.round_r_invariant rankOf t H r b val jst w n ops hstart hbest hadm hexec hsync
+
+/-- **Round `r` decides `val w`** when the strictly best ticket holder's value is admissible everywhere. -/
+theorem round_r_decides (rankOf : Pid → Nat → Nat) (t : Table) (H : List Pid) (r b : Nat) (val : Pid → Chain)
+    (jst : Pid → Just) (w : Pid) (n : Net) (ops : List NetOp)
+    (hstart : RoundStart rankOf t H r b val jst n) (hbest : bestTicket rankOf H r w = true)
+    (hadm : admAllB H w val jst n = true)
+    (hexec : execOkR rankOf n ops = true) (hsync : SyncOrderedR rankOf r H n ops)
+    (hcomplete : completeR r H (runNetR rankOf n ops) = true)
+    (hconv : noneInConverge H (runNetR rankOf n ops) = true) :
+    ∀ p ∈ H, ∃ x d, (runNetR rankOf n ops).node? p = some x ∧ x.phase = .terminated ∧ x.round = r ∧
+      x.termination = some d ∧ d.value = val w ∧
+      ∃ m ∈ (runNetR rankOf n ops).pool, m.sender = p ∧ m.phase = .decide ∧ m.value = val w :=
+  F3.Liveness.round_r_decides rankOf t H r b val jst w n ops hstart hbest hadm hexec hsync hcomplete hconv
+
+/-! ### non-vacuity (1): round 1 of `ranked_round1_converges` -/
+
+/-- the network after the first six stages of `rkScript` (round 0 has ended in COMMIT ⊥ for everybody) ... -/
+def rkStart : Net := (runScript rkRank rkNet (rkScript.take 6)).1
+/-- ... and the events of the remaining five stages (CONVERGE flood, timers, PREPARE, COMMIT, DECIDE floods) -/
+def rkRoundOps : List NetOp := (runScript rkRank rkStart (rkScript.drop 6)).2
+
+/-- the hypotheses of `round_r_decides` hold of round 1 of that run (whole table, `w` = member 3, `val w = 7`) -/
+theorem rk_round1_hyps :
+    RoundStart rkRank rkTbl rkAll 1 7 (valOf rkStart 1) (jstOf rkStart 1) rkStart ∧
+    bestTicket rkRank rkAll 1 3 = true ∧
+    admAllB rkAll 3 (valOf rkStart 1) (jstOf rkStart 1) rkStart = true ∧
+    execOkR rkRank rkStart rkRoundOps = true ∧
+    SyncOrderedR rkRank 1 rkAll rkStart rkRoundOps ∧
+    completeR 1 rkAll (runNetR rkRank rkStart rkRoundOps) = true ∧
+    noneInConverge rkAll (runNetR rkRank rkStart rkRoundOps) = true ∧
+    valOf rkStart 1 3 = [7] ∧ rkAll = rkTbl.entries.map (·.1) := by
+  refine ⟨?_, by decide +kernel, by decide +kernel, by decide +kernel, ?_, by decide +kernel, by decide +kernel,
+    by decide +kernel, by decide⟩
+  · unfold RoundStart; decide +kernel
+  · unfold SyncOrderedR; decide +kernel
+
+/-- the theorem applied to it: all four members terminate in round 1 with decision `7` -/
+theorem rk_round1_decides_by_theorem :
+    ∀ p ∈ rkAll, ∃ x d, (runNetR rkRank rkStart rkRoundOps).node? p = some x ∧ x.phase = .terminated ∧ x.round = 1 ∧
+      x.termination = some d ∧ d.value = [7] := by
+  obtain ⟨h1, h2, h3, h4, h5, h6, h7, h8, _⟩ := rk_round1_hyps
+  intro p hp
+  obtain ⟨x, d, a1, a2, a3, a4, a5, _⟩ :=
+    round_r_decides rkRank rkTbl rkAll 1 7 (valOf rkStart 1) (jstOf rkStart 1) 3 rkStart rkRoundOps h1 h2 h3 h4 h5 h6 h7 p hp
+  exact ⟨x, d, a1, a2, a3, a4, h8 ▸ a5⟩
+
+/-- it is the run of `ranked_round1_converges` -/
+example : (runNetR rkRank rkStart rkRoundOps).nodes.map (fun e => (e.1, e.2.round, e.2.phase, e.2.termination.map (·.value))) =
+    (runScript rkRank rkNet rkScript).1.nodes.map (fun e => (e.1, e.2.round, e.2.phase, e.2.termination.map (·.value))) := by
+  decide +kernel
+
+/-! ### "every member PREPAREs `val w`" is not a consequence
+
+Same start; members 1–3 run the round among themselves (3 of 4 equal members are a strong quorum); member 4, whose
+CONVERGE timer (233 on its clock) has not fired, is handed their DECIDEs at its time 200: it skips to DECIDE and
+terminates with `7` without ever broadcasting a PREPARE or COMMIT of round 1. All hypotheses of `round_r_decides` hold. -/
+def rkSkipScript : List (Net → List NetOp) :=
+  [fun n => floodOps n 104 [1, 2, 3] 1 .converge,
+   fun _ => [.alarm 1 233, .alarm 2 233, .alarm 3 233],
+   fun n => floodOps n 234 [1, 2, 3] 1 .prepare,
+   fun n => floodOps n 235 [1, 2, 3] 1 .commit,
+   fun n => floodOps n 236 [1, 2, 3] 0 .decide,
+   fun n => floodOps n 200 [4] 0 .decide,
+   fun n => floodOps n 237 rkAll 0 .decide,
+   fun n => floodOps n 238 [4] 1 .converge,
+   fun n => floodOps n 238 [4] 1 .prepare,
+   fun n => floodOps n 238 [4] 1 .commit]
+def rkSkipOps : List NetOp := (runScript rkRank rkStart rkSkipScript).2
+
+theorem round_r_member_skips_prepare :
+    execOkR rkRank rkStart rkSkipOps = true ∧ SyncOrderedR rkRank 1 rkAll rkStart rkSkipOps ∧
+    completeR 1 rkAll (runNetR rkRank rkStart rkSkipOps) = true ∧
+    noneInConverge rkAll (runNetR rkRank rkStart rkSkipOps) = true ∧
+    decidedB rkAll 1 [7] (runNetR rkRank rkStart rkSkipOps) = true ∧
+    ((runNetR rkRank rkStart rkSkipOps).pool.filter (fun m => m.sender == 4 && m.round == 1)).map (·.phase) = [.converge] := by
+  refine ⟨by decide +kernel, ?_, by decide +kernel, by decide +kernel, by decide +kernel, by decide +kernel⟩
+  unfold SyncOrderedR; decide +kernel
+
+/-! ### the CONVERGE clause of `SyncOrderedR` is necessary — and it must cover deliveries, not only alarms
+
+Same start. Members 1 and 2 are handed their *own* CONVERGE at time 300, after their CONVERGE timeout (233): no alarm is
+involved, `tryConverge` runs at the end of `Receive`, finds the timeout expired and only the member's own value in the
+converge state, and PREPAREs it (`7.8`). Members 3 and 4 are handed all four CONVERGEs before their alarm and PREPARE the
+best ticket's value `7`. PREPARE splits 2/2, everybody COMMITs ⊥, round 2 begins — although the best ticket's value
+was admissible everywhere, nothing was lost and every message was delivered. The very first event violates
+`SyncOrderedR`. -/
+def rkOwnConv (n : Net) (now : Int) (p : Pid) : List NetOp :=
+  (n.pool.filter (fun m => m.round == 1 && m.phase == .converge && m.sender == p)).map (fun m => NetOp.deliver p now m)
+def rkLateScript : List (Net → List NetOp) :=
+  [fun n => rkOwnConv n 300 1 ++ rkOwnConv n 300 2,
+   fun n => floodOps n 104 [3, 4] 1 .converge,
+   fun _ => [.alarm 3 400, .alarm 4 400],
+   fun n => floodOps n 401 [1, 2] 1 .converge,
+   fun n => floodOps n 402 rkAll 1 .prepare,
+   fun _ => [.alarm 1 600, .alarm 2 600, .alarm 3 600, .alarm 4 600],
+   fun n => floodOps n 601 rkAll 1 .commit]
+def rkLateOps : List NetOp := (runScript rkRank rkStart rkLateScript).2
+
+theorem round_r_late_converge_delivery_splits :
+    execOkR rkRank rkStart rkLateOps = true ∧ completeR 1 rkAll (runNetR rkRank rkStart rkLateOps) = true ∧
+    (runNetR rkRank rkStart rkLateOps).fails = [] ∧
+    ¬ SyncOrderedR rkRank 1 rkAll rkStart (rkLateOps.take 1) ∧
+    ((runNetR rkRank rkStart rkLateOps).pool.filter (fun m => m.round == 1 && m.phase != .converge)).map
+        (fun m => (m.sender, m.phase, m.value)) =
+      [(1, .prepare, [7, 8]), (2, .prepare, [7, 8]), (3, .prepare, [7]), (4, .prepare, [7]),
+       (1, .commit, []), (2, .commit, []), (3, .commit, []), (4, .commit, [])] ∧
+    (runNetR rkRank rkStart rkLateOps).nodes.map (fun e => (e.1, e.2.round, e.2.phase)) =
+      [(1, 2, .converge), (2, 2, .converge), (3, 2, .converge), (4, 2, .converge)] := by
+  refine ⟨by decide +kernel, by decide +kernel, by decide +kernel, ?_, by decide +kernel, by decide +kernel⟩
+  unfold SyncOrderedR; decide +kernel
+
+/-! ### non-vacuity (2) and S13: `s13_decides_when_M_wins`, `s13_rounds_end_in_bottom`
+
+`s13Script [1, 2, 3]` has 7 stages for round 0 and 5 per later round: round `r` starts after `7 + 5 (r - 1)` stages. Live
+members `[1, 2, 3]` (3 of 4 equal members: a strong quorum), member 4 silent. -/
+def s13Start (rk : Pid → Nat → Nat) (k : Nat) : Net := (runScript rk s13Net ((s13Script [1, 2, 3]).take k)).1
+def s13RoundOps (rk : Pid → Nat → Nat) (k : Nat) : List NetOp :=
+  (runScript rk (s13Start rk k) ((s13Script [1, 2, 3]).drop k)).2
+
+/-- round 2 of `s13_decides_when_M_wins` (`M` = member 3 holds the best ticket; its value `7` is a candidate
+everywhere): the hypotheses of `round_r_decides` hold -/
+theorem s13_round2_hyps :
+    RoundStart s13Win2 rkTbl s13Live 2 7 (valOf (s13Start s13Win2 12) 2) (jstOf (s13Start s13Win2 12) 2) (s13Start s13Win2 12) ∧
+    bestTicket s13Win2 s13Live 2 3 = true ∧
+    admAllB s13Live 3 (valOf (s13Start s13Win2 12) 2) (jstOf (s13Start s13Win2 12) 2) (s13Start s13Win2 12) = true ∧
+    execOkR s13Win2 (s13Start s13Win2 12) (s13RoundOps s13Win2 12) = true ∧
+    SyncOrderedR s13Win2 2 s13Live (s13Start s13Win2 12) (s13RoundOps s13Win2 12) ∧
+    completeR 2 s13Live (runNetR s13Win2 (s13Start s13Win2 12) (s13RoundOps s13Win2 12)) = true ∧
+    noneInConverge s13Live (runNetR s13Win2 (s13Start s13Win2 12) (s13RoundOps s13Win2 12)) = true ∧
+    valOf (s13Start s13Win2 12) 2 3 = [7] := by
+  refine ⟨?_, by decide +kernel, by decide +kernel, by decide +kernel, ?_, by decide +kernel, by decide +kernel,
+    by decide +kernel⟩
+  · unfold RoundStart; decide +kernel
+  · unfold SyncOrderedR; decide +kernel
+
+theorem s13_round2_decides_by_theorem :
+    ∀ p ∈ s13Live, ∃ x d, (runNetR s13Win2 (s13Start s13Win2 12) (s13RoundOps s13Win2 12)).node? p = some x ∧
+      x.phase = .terminated ∧ x.round = 2 ∧ x.termination = some d ∧ d.value = [7] := by
+  obtain ⟨h1, h2, h3, h4, h5, h6, h7, h8⟩ := s13_round2_hyps
+  intro p hp
+  obtain ⟨x, d, a1, a2, a3, a4, a5, _⟩ :=
+    round_r_decides s13Win2 rkTbl s13Live 2 7 _ _ 3 _ _ h1 h2 h3 h4 h5 h6 h7 p hp
+  exact ⟨x, d, a1, a2, a3, a4, h8 ▸ a5⟩
+
+/-- **The theorem does not contradict S13: the premise that fails is admissibility.** In `s13_rounds_end_in_bottom`
+(member 1 holds the best ticket of every round) rounds 1, 2 and 3 all start in a `RoundStart`, the best ticket is strict,
+round 3 (the last one the script runs) is admissible, round-synchronous and complete — but `val 1 = 7.8` is not
+admissible at `M` (`admAllB = false` in every round), and the members are in CONVERGE of round 4. The same holds of round 1
+of `s13_decides_when_M_wins` (member 1 wins round 1). -/
+theorem s13_admissibility_fails :
+    (RoundStart s13Lose rkTbl s13Live 1 7 (valOf (s13Start s13Lose 7) 1) (jstOf (s13Start s13Lose 7) 1) (s13Start s13Lose 7) ∧
+     RoundStart s13Lose rkTbl s13Live 2 7 (valOf (s13Start s13Lose 12) 2) (jstOf (s13Start s13Lose 12) 2) (s13Start s13Lose 12) ∧
+     RoundStart s13Lose rkTbl s13Live 3 7 (valOf (s13Start s13Lose 17) 3) (jstOf (s13Start s13Lose 17) 3) (s13Start s13Lose 17)) ∧
+    (bestTicket s13Lose s13Live 1 1 = true ∧ bestTicket s13Lose s13Live 2 1 = true ∧ bestTicket s13Lose s13Live 3 1 = true) ∧
+    (admAllB s13Live 1 (valOf (s13Start s13Lose 7) 1) (jstOf (s13Start s13Lose 7) 1) (s13Start s13Lose 7) = false ∧
+     admAllB s13Live 1 (valOf (s13Start s13Lose 12) 2) (jstOf (s13Start s13Lose 12) 2) (s13Start s13Lose 12) = false ∧
+     admAllB s13Live 1 (valOf (s13Start s13Lose 17) 3) (jstOf (s13Start s13Lose 17) 3) (s13Start s13Lose 17) = false) ∧
+    (valOf (s13Start s13Lose 17) 3 1 = [7, 8] ∧ (jstOf (s13Start s13Lose 17) 3 1).phase = .commit ∧
+     ((s13Start s13Lose 17).node? 3).map (·.candidates) = some [[7]]) ∧
+    (execOkR s13Lose (s13Start s13Lose 17) (s13RoundOps s13Lose 17) = true ∧
+     SyncOrderedR s13Lose 3 s13Live (s13Start s13Lose 17) (s13RoundOps s13Lose 17) ∧
+     completeR 3 s13Live (runNetR s13Lose (s13Start s13Lose 17) (s13RoundOps s13Lose 17)) = true ∧
+     (runNetR s13Lose (s13Start s13Lose 17) (s13RoundOps s13Lose 17)).nodes.map (fun e => (e.1, e.2.round, e.2.phase)) =
+       [(1, 4, .converge), (2, 4, .converge), (3, 4, .converge), (4, 0, .quality)]) ∧
+    (bestTicket s13Win2 s13Live 1 1 = true ∧
+     admAllB s13Live 1 (valOf (s13Start s13Win2 7) 1) (jstOf (s13Start s13Win2 7) 1) (s13Start s13Win2 7) = false) := by
+  refine ⟨⟨?_, ?_, ?_⟩, ⟨by decide, by decide, by decide⟩, ⟨by decide +kernel, by decide +kernel, by decide +kernel⟩,
+    ⟨by decide +kernel, by decide +kernel, by decide +kernel⟩,
+    ⟨by decide +kernel, ?_, by decide +kernel, by decide +kernel⟩, ⟨by decide, by decide +kernel⟩⟩
+  · unfold RoundStart; decide +kernel
+  · unfold RoundStart; decide +kernel
+  · unfold RoundStart; decide +kernel
+  · unfold SyncOrderedR; decide +kernel
+
+end RoundR
 end F3.Props.C06
